@@ -52,6 +52,10 @@ type Output struct {
 	ShapesKeyAbsent   int            `json:"shapes_expected_key_absent"`
 	ShapesUnknownName int            `json:"shape_type_fields_with_unknown_name"`
 	ShapeEvaluations  int            `json:"shape_evaluations"`
+	HistoryProcesses  int            `json:"history_processes"`
+	HistorySequences  int            `json:"history_sequences"`
+	HistoryRequests   int            `json:"history_requests"`
+	HistoryMixed      int            `json:"history_sequences_mixing_enabled_and_disabled"`
 	Exhaustive        bool           `json:"exhaustive"`
 	Stopped           string         `json:"stopped,omitempty"`
 	Samples           []any          `json:"samples"`
@@ -102,8 +106,17 @@ func main() {
 	workers := flag.Int("workers", runtime.NumCPU(), "worker goroutines")
 	namesFullUpto := flag.Int("names-full-upto", 3, "shapes with at most this many nodes take __type names from the full alphabet")
 	wrapDepth := flag.Int("wrap-depth", 4, "max depth of list/non-null wrappers in the grid")
+	histLen := flag.Int("hist-len", 0, "max requests per history (0 = no histories)")
+	fed := flag.Bool("fed", false, "this binary was built in the federation probe (own embedded schema, _service field)")
+	histWork := flag.Bool("hist-worker", false, "internal: run the histories of one (configuration, first request) and print JSON")
+	histCfg := flag.Int("hist-config", 0, "internal")
+	histFirst := flag.Int("hist-first", 0, "internal")
 	dump := flag.String("dump", "", "print the SDL of an assignment given as slot=value,slot=value and exit")
 	flag.Parse()
+	if *histWork {
+		histWorker(*fed, *histCfg, *histFirst, *histLen)
+		return
+	}
 	start := time.Now()
 	var finalDeadline time.Time
 	if *budget > 0 {
@@ -135,7 +148,7 @@ func main() {
 		return
 	}
 	if *replay != "" {
-		os.Exit(doReplay(grid, *replay, *layout))
+		os.Exit(doReplay(grid, *replay, *layout, *fed))
 	}
 	k := 2
 	if *tier == "thorough" {
@@ -145,11 +158,17 @@ func main() {
 		k = *gridK
 	}
 	col := &collector{findings: map[string]*Finding{}}
-	o := &Output{Layout: *layout, Exhaustive: true, Bounds: map[string]any{}}
+	o := &Output{Layout: *layout, Exhaustive: true, Bounds: map[string]any{}, Findings: []*Finding{}}
 	o.Bounds["wrapper_depth"] = *wrapDepth
-	runGrid(grid, k, *workers, *layout, col, o)
+	// histories first: they are cheap and must not be starved by the grid
+	runHistories(*fed, *histLen, *workers, *layout, col, o)
+	if *gridK >= 0 {
+		runGrid(grid, k, *workers, *layout, col, o)
+	}
 	deadline = finalDeadline
-	runShapes(*shapeN, *namesFullUpto, *workers, *layout, col, o)
+	if *shapeN > 0 {
+		runShapes(*shapeN, *namesFullUpto, *workers, *layout, col, o)
+	}
 	for _, f := range col.findings {
 		o.Findings = append(o.Findings, f)
 	}
@@ -817,7 +836,7 @@ func runShapes(maxNodes, namesFullUpto, workers int, layout string, col *collect
 // ---------------------------------------------------------------------------------------
 // replay
 
-func doReplay(g *Grid, file, layout string) int {
+func doReplay(g *Grid, file, layout string, fed bool) int {
 	b, err := os.ReadFile(file)
 	if err != nil {
 		fmt.Println("cannot read replay:", err)
@@ -832,6 +851,9 @@ func doReplay(g *Grid, file, layout string) int {
 			Assignment map[string]string `json:"assignment"`
 			Query      string            `json:"query"`
 			Variables  map[string]any    `json:"variables"`
+			Config     string            `json:"config"`
+			Federation bool              `json:"federation"`
+			Requests   []histRequest     `json:"requests"`
 		} `json:"replay"`
 	}
 	if err := json.Unmarshal(b, &rf); err != nil {
@@ -843,6 +865,8 @@ func doReplay(g *Grid, file, layout string) int {
 	}
 	fmt.Printf("replaying %s on layout %s\n", rf.Signature, layout)
 	switch rf.Replay.Mode {
+	case "history":
+		return replayHistory(fed, rf.Replay.Config, rf.Replay.Requests)
 	case "grid":
 		a, err := g.FromNamed(rf.Replay.Assignment)
 		if err != nil {
